@@ -79,6 +79,10 @@ class HarnessError(Exception):
     """Something is wrong with the harness (never reported as a VIOLATION)."""
 
 
+class RunTimeout(BaseException):
+    """One simulated run exceeded its wall-clock allowance (e.g. a solver of a dependency that does not return)."""
+
+
 class SimCrash(BaseException):
     """Simulated process crash delivered at a fault point."""
 
